@@ -348,3 +348,273 @@ Proof.
 Qed.
 
 End Slots.
+
+(* ================================================================ Part B: frameworks *)
+Section Template.
+Variable n : nat.                       (* argument slots *)
+Variable ids : list nat.                (* live argument ids *)
+Variable atts : list (nat * nat).       (* attacks (attacker, attacked) *)
+Variable av : nat -> nat.               (* slot (= variable) of an argument *)
+Hypothesis av_range : forall a, In a ids -> 1 <= av a <= n.
+Hypothesis av_inj : forall a b, In a ids -> In b ids -> av a = av b -> a = b.
+Hypothesis atts_live : forall a b, In (a, b) atts -> In a ids /\ In b ids.
+
+Definition tF : af := {| args := ids; AF.atts := atts |}.
+
+(* what the assumptions say: attack variable (a, b) is true iff the argument of slot b attacks the
+   argument of slot a *)
+Definition slot_att (a b : nat) : bool :=
+  existsb (fun p => Nat.eqb (av (snd p)) a && Nat.eqb (av (fst p)) b) atts.
+Definition S_of (m : val) : list nat := filter (fun a => m (av a)) ids.
+
+Lemma in_S_of m a : In a (S_of m) <-> In a ids /\ m (av a) = true.
+Proof. unfold S_of. rewrite filter_In. tauto. Qed.
+
+Lemma slot_att_spec a b :
+  slot_att a b = true <-> exists x y, att tF y x /\ In x ids /\ In y ids /\ av x = a /\ av y = b.
+Proof.
+  unfold slot_att. rewrite existsb_exists. split.
+  - intros ([y x] & Hin & H). cbn [fst snd] in H. apply andb_true_iff in H. destruct H as [H1 H2].
+    apply Nat.eqb_eq in H1, H2. destruct (atts_live y x Hin) as [Hy Hx]. exists x, y. auto.
+  - intros (x & y & Hin & _ & _ & <- & <-). exists (y, x). split; [exact Hin|]. cbn [fst snd].
+    rewrite !Nat.eqb_refl. reflexivity.
+Qed.
+Lemma slot_att_av x y : In x ids -> In y ids -> (slot_att (av x) (av y) = true <-> att tF y x).
+Proof.
+  intros Hx Hy. rewrite slot_att_spec. split.
+  - intros (x' & y' & Hin & Hx' & Hy' & E1 & E2). apply av_inj in E1, E2; auto. subst. exact Hin.
+  - intros Hin. exists x, y. auto.
+Qed.
+Lemma att_tF_live a b : att tF a b -> In a ids /\ In b ids.
+Proof. exact (atts_live a b). Qed.
+
+(* "attacked by a member", read on the slots *)
+Lemma dv_av (sv : nat -> bool) x : In x ids ->
+  (dv n slot_att sv (av x) = true <-> exists z, In z ids /\ att tF z x /\ sv (av z) = true).
+Proof.
+  intros Hx. rewrite dv_spec. split.
+  - intros (c & Hc & HR & Hs). apply slot_att_spec in HR. destruct HR as (x' & z & Hin & Hx' & Hz & E1 & <-).
+    apply av_inj in E1; auto. subst x'. exists z. auto.
+  - intros (z & Hz & Hin & Hs). exists (av z). split; [apply av_range; exact Hz|]. split; [|exact Hs].
+    apply slot_att_av; auto.
+Qed.
+
+(* ---------------------------------------------------------------- soundness *)
+Lemma st_slots_ext m : st_slots n slot_att m -> st tF (S_of m).
+Proof.
+  intros Hs. split; [intros a Ha; apply in_S_of in Ha; exact (proj1 Ha)|]. split.
+  - intros a b Ha Hb Hab. apply in_S_of in Ha, Hb. destruct Ha as [Hai Hma], Hb as [Hbi Hmb].
+    destruct (Hs (av b) (av_range b Hbi)) as [H1 _].
+    apply (H1 (av a) (av_range a Hai)); auto. apply slot_att_av; auto.
+  - intros a Ha Hn. cbn [args tF] in Ha. destruct (Hs (av a) (av_range a Ha)) as [_ [H|(b & Hb & HR & Hmb)]].
+    + exfalso. apply Hn. apply in_S_of. auto.
+    + apply slot_att_spec in HR. destruct HR as (a' & y & Hin & Ha' & Hy & E1 & <-).
+      apply av_inj in E1; auto. subst a'. exists y. split; [apply in_S_of; auto|exact Hin].
+Qed.
+
+Theorem att_st_sound m :
+  vmodels m (att_st_cnf n) = true -> assumed n slot_att m -> st tF (S_of m).
+Proof. intros Hm Ha. apply st_slots_ext. apply st_slots_sound; assumption. Qed.
+
+Lemma co_slots_ext m : co_slots n slot_att m -> co tF (S_of m).
+Proof.
+  intros Hs.
+  assert (Hdv : forall x, In x ids -> (dv n slot_att m (av x) = true <-> exists z, In z (S_of m) /\ att tF z x)).
+  { intros x Hx. rewrite (dv_av m x Hx). split.
+    - intros (z & Hz & Hin & Hmz). exists z. split; [apply in_S_of; auto|exact Hin].
+    - intros (z & Hz & Hin). apply in_S_of in Hz. exists z. tauto. }
+  assert (Hincl : incl (S_of m) (args tF)) by (intros a Ha; apply in_S_of in Ha; exact (proj1 Ha)).
+  split; [split; [exact Hincl|split]|].
+  - intros a b Ha Hb Hab. apply in_S_of in Hb. destruct Hb as [Hbi Hmb].
+    destruct (Hs (av b) (av_range b Hbi)) as (H0 & _). apply H0; [exact Hmb|]. apply (Hdv b Hbi). exists a. auto.
+  - intros a Ha b Hb. apply in_S_of in Ha. destruct Ha as [Hai Hma]. destruct (att_tF_live b a Hb) as [Hbi _].
+    destruct (Hs (av a) (av_range a Hai)) as (_ & H1 & _).
+    apply (Hdv b Hbi). apply (H1 (av b) (av_range b Hbi)); [|exact Hma]. apply slot_att_av; auto.
+  - intros a Ha Hdef. cbn [args tF] in Ha. apply in_S_of. split; [exact Ha|].
+    destruct (Hs (av a) (av_range a Ha)) as (_ & _ & [H|(b & Hb & HR & Hd)]); [exact H|exfalso].
+    apply slot_att_spec in HR. destruct HR as (a' & y & Hin & Ha' & Hy & E1 & <-).
+    apply av_inj in E1; auto. subst a'. destruct (Hdef y Hin) as (c & Hc & Hcy).
+    assert (Ht : dv n slot_att m (av y) = true) by (apply (Hdv y Hy); exists c; auto). congruence.
+Qed.
+
+Theorem att_co_sound m :
+  vmodels m (att_co_cnf n) = true -> assumed n slot_att m -> co tF (S_of m).
+Proof. intros Hm Ha. apply co_slots_ext. apply (co_slots_sound n slot_att m Hm Ha). Qed.
+
+(* a slot that no live argument holds (never used, or given up by a removed argument) is forced IN by
+   the clauses themselves: it has no attacker.  (It attacks nobody because its attack variables are
+   assumed false.)  In particular the unit clause [v] that remove_argument adds is implied. *)
+Theorem att_st_unused_in m v :
+  vmodels m (att_st_cnf n) = true -> assumed n slot_att m ->
+  1 <= v <= n -> (forall a, In a ids -> av a <> v) -> m v = true.
+Proof.
+  intros Hm Ha Hv Hno. destruct (st_slots_sound n slot_att m Hm Ha v Hv) as [_ [H|(b & _ & HR & _)]]; [exact H|exfalso].
+  apply slot_att_spec in HR. destruct HR as (x & _ & _ & Hx & _ & E & _). exact (Hno x Hx E).
+Qed.
+Theorem att_co_unused_in m v :
+  vmodels m (att_co_cnf n) = true -> assumed n slot_att m ->
+  1 <= v <= n -> (forall a, In a ids -> av a <> v) -> m v = true.
+Proof.
+  intros Hm Ha Hv Hno. destruct (co_slots_sound n slot_att m Hm Ha) as [Hs _].
+  destruct (Hs v Hv) as (_ & _ & [H|(b & _ & HR & _)]); [exact H|exfalso].
+  apply slot_att_spec in HR. destruct HR as (x & _ & _ & Hx & _ & E & _). exact (Hno x Hx E).
+Qed.
+
+(* ---------------------------------------------------------------- completeness *)
+(* the slot labelling of a set X of arguments: slots of live arguments by membership, every other slot
+   (never used, or given up by a removed argument) IN *)
+Definition sv_of (X : list nat) (v : nat) : bool :=
+  match find (fun a => Nat.eqb (av a) v) ids with Some a => memb a X | None => true end.
+
+Lemma sv_of_av X a : In a ids -> sv_of X (av a) = memb a X.
+Proof.
+  intros Ha. unfold sv_of. destruct (find _ ids) as [x|] eqn:E.
+  - apply find_some in E. destruct E as [Hx He]. apply Nat.eqb_eq in He. f_equal. now apply av_inj.
+  - pose proof (find_none _ _ E a Ha) as Hn. cbv beta in Hn. rewrite Nat.eqb_refl in Hn. discriminate Hn.
+Qed.
+Lemma sv_of_other X v : (forall a, In a ids -> av a <> v) -> sv_of X v = true.
+Proof.
+  intros H. unfold sv_of. destruct (find _ ids) as [x|] eqn:E; [|reflexivity].
+  apply find_some in E. destruct E as [Hx He]. apply Nat.eqb_eq in He. exfalso. exact (H x Hx He).
+Qed.
+Lemma slot_image v : (exists a, In a ids /\ av a = v) \/ (forall a, In a ids -> av a <> v).
+Proof.
+  destruct (find (fun a => Nat.eqb (av a) v) ids) as [x|] eqn:E.
+  - left. apply find_some in E. destruct E as [Hx He]. apply Nat.eqb_eq in He. exists x. auto.
+  - right. intros a Ha Hv. pose proof (find_none _ _ E a Ha) as Hn. cbv beta in Hn.
+    rewrite Hv, Nat.eqb_refl in Hn. discriminate Hn.
+Qed.
+Lemma slot_att_image a b : slot_att a b = true -> exists x, In x ids /\ av x = a.
+Proof. intros H. apply slot_att_spec in H. destruct H as (x & y & _ & Hx & _ & E & _). exists x. auto. Qed.
+
+Lemma st_ext_slots X : st tF X -> st_slots n slot_att (sv_of X).
+Proof.
+  intros [Hincl [Hcf Hst]] a Ha. split.
+  - intros b Hb HR Hsa Hsb. apply slot_att_spec in HR. destruct HR as (x & y & Hin & Hx & Hy & <- & <-).
+    rewrite sv_of_av in Hsa, Hsb by assumption. apply memb_spec in Hsa, Hsb. exact (Hcf y x Hsb Hsa Hin).
+  - destruct (slot_image a) as [(x & Hx & <-)|Hno]; [|left; apply sv_of_other; exact Hno].
+    rewrite sv_of_av by exact Hx. destruct (memb x X) eqn:Em; [left; reflexivity|right].
+    apply memb_false in Em. destruct (Hst x Hx Em) as (y & Hy & Hin). destruct (att_tF_live y x Hin) as [Hyi _].
+    exists (av y). split; [apply av_range; exact Hyi|]. split; [apply slot_att_av; auto|].
+    rewrite sv_of_av by exact Hyi. now apply memb_spec.
+Qed.
+
+Theorem att_st_complete X : st tF X ->
+  let m := st_model n slot_att (sv_of X) in
+  vmodels m (att_st_cnf n) = true /\ assumed n slot_att m /\
+  (forall a, In a ids -> (m (av a) = true <-> In a X)) /\
+  (forall v, 1 <= v <= n -> (forall a, In a ids -> av a <> v) -> m v = true).
+Proof.
+  intros HX m. destruct (st_slots_complete n slot_att (sv_of X) (st_ext_slots X HX)) as (H1 & H2 & H3).
+  split; [exact H1|]. split; [exact H2|]. split.
+  - intros a Ha. unfold m. rewrite H3 by (apply av_range; exact Ha). rewrite sv_of_av by exact Ha. apply memb_spec.
+  - intros v Hv Hno. unfold m. rewrite H3 by lia. apply sv_of_other. exact Hno.
+Qed.
+
+Lemma co_ext_slots X : co tF X -> co_slots n slot_att (sv_of X).
+Proof.
+  intros [[Hincl [Hcf Hdef]] Hco].
+  assert (Hdv : forall x, In x ids ->
+            (dv n slot_att (sv_of X) (av x) = true <-> exists z, In z X /\ att tF z x)).
+  { intros x Hx. rewrite (dv_av (sv_of X) x Hx). split.
+    - intros (z & Hz & Hin & Hs). rewrite sv_of_av in Hs by exact Hz. exists z. split; [now apply memb_spec|exact Hin].
+    - intros (z & Hz & Hin). destruct (att_tF_live z x Hin) as [Hzi _]. exists z. split; [exact Hzi|].
+      split; [exact Hin|]. rewrite sv_of_av by exact Hzi. now apply memb_spec. }
+  intros a Ha. destruct (slot_image a) as [(x & Hx & <-)|Hno].
+  - rewrite sv_of_av by exact Hx. split; [|split].
+    + intros Hm Hd. apply memb_spec in Hm. apply (Hdv x Hx) in Hd. destruct Hd as (z & Hz & Hin). exact (Hcf z x Hz Hm Hin).
+    + intros b Hb HR Hm. apply memb_spec in Hm. apply slot_att_spec in HR.
+      destruct HR as (x' & y & Hin & Hx' & Hy & E & <-). apply av_inj in E; auto. subst x'.
+      apply (Hdv y Hy). destruct (Hdef x Hm y Hin) as (c & Hc & Hcy). exists c. auto.
+    + destruct (memb x X) eqn:Em; [left; reflexivity|right]. apply memb_false in Em.
+      destruct (defendsb tF X x) eqn:Ed.
+      { exfalso. apply Em. apply Hco; [exact Hx|]. now apply defendsb_spec. }
+      destruct (not_defended_witness tF X x Ed) as (y & Hy & Hny). apply attacked_byb_false in Hny.
+      destruct (att_tF_live y x Hy) as [Hyi _].
+      exists (av y). split; [apply av_range; exact Hyi|]. split; [apply slot_att_av; auto|].
+      destruct (dv n slot_att (sv_of X) (av y)) eqn:E; [|reflexivity]. exfalso. apply Hny. apply (Hdv y Hyi). exact E.
+  - assert (Hnr : forall b, slot_att a b = false).
+    { intros b. destruct (slot_att a b) eqn:E; [|reflexivity]. exfalso.
+      destruct (slot_att_image a b E) as (x & Hx & Hv). exact (Hno x Hx Hv). }
+    split; [|split].
+    + intros _ Hd. apply dv_spec in Hd. destruct Hd as (c & _ & HR & _). rewrite Hnr in HR. discriminate HR.
+    + intros b _ HR. rewrite Hnr in HR. discriminate HR.
+    + left. apply sv_of_other. exact Hno.
+Qed.
+
+Theorem att_co_complete X : co tF X ->
+  let m := co_model n slot_att (sv_of X) in
+  vmodels m (att_co_cnf n) = true /\ assumed n slot_att m /\
+  (forall a, In a ids -> (m (av a) = true <-> In a X)) /\
+  (forall v, 1 <= v <= n -> (forall a, In a ids -> av a <> v) -> m v = true).
+Proof.
+  intros HX m. destruct (co_slots_complete n slot_att (sv_of X) (co_ext_slots X HX)) as (H1 & H2 & H3).
+  split; [exact H1|]. split; [exact H2|]. split.
+  - intros a Ha. unfold m. rewrite H3 by (apply av_range; exact Ha). rewrite sv_of_av by exact Ha. apply memb_spec.
+  - intros v Hv Hno. unfold m. rewrite H3 by lia. apply sv_of_other. exact Hno.
+Qed.
+
+(* ================================================================ Part C: the assumption vector *)
+(* assumptions(af) for the index list idx: attack variable number i (0-based) positively iff i is in idx *)
+Definition att_asm (idx : list nat) : list lit :=
+  map (fun i => if memb i idx then zlit (1 + i + n) else znlit (1 + n + i)) (seq 0 (n * n)).
+
+Lemma att_asm_sem idx m :
+  forallb (vtrue m) (att_asm idx) = true <-> forall i, i < n * n -> m (1 + n + i) = memb i idx.
+Proof.
+  unfold att_asm. rewrite forallb_forall. split.
+  - intros H i Hi. specialize (H _ (in_map _ _ i (proj2 (in_seq _ _ _) (conj (Nat.le_0_l i) Hi)))). cbv beta in H.
+    destruct (memb i idx).
+    + rewrite vtrue_zlit in H by lia. rewrite <- H. f_equal. lia.
+    + rewrite vtrue_znlit in H. apply negb_true_iff in H. exact H.
+  - intros H l Hl. apply in_map_iff in Hl. destruct Hl as (i & <- & Hi). apply in_seq in Hi.
+    specialize (H i (proj2 Hi)). destruct (memb i idx).
+    + rewrite vtrue_zlit by lia. rewrite <- H. f_equal. lia.
+    + rewrite vtrue_znlit, H. reflexivity.
+Qed.
+
+(* the index list that att_indices computes *)
+Definition idx_of_atts : list nat := map (fun p => att_index n (av (snd p)) (av (fst p))) atts.
+
+Lemma att_index_pidx a b : 1 <= b -> att_index n a b = pidx n a b.
+Proof. intros Hb. unfold att_index, pidx. rewrite (Nat.mul_comm (a - 1) n). set (x := n * (a - 1)). lia. Qed.
+
+Lemma pidx_inj a b a' b' : 1 <= a -> 1 <= a' -> 1 <= b <= n -> 1 <= b' <= n ->
+  pidx n a b = pidx n a' b' -> a = a' /\ b = b'.
+Proof.
+  intros Ha Ha' Hb Hb' E. destruct (dec_pidx n a b Ha Hb) as [A B]. destruct (dec_pidx n a' b' Ha' Hb') as [A' B'].
+  rewrite E in A, B. split; congruence.
+Qed.
+
+Lemma memb_idx_of_atts a b : 1 <= a <= n -> 1 <= b <= n ->
+  memb (pidx n a b) idx_of_atts = slot_att a b.
+Proof.
+  intros Ha Hb. apply Bool.eq_iff_eq_true. rewrite memb_spec. unfold idx_of_atts, slot_att.
+  rewrite in_map_iff, existsb_exists. split.
+  - intros ([y x] & E & Hin). exists (y, x). split; [exact Hin|]. cbn [fst snd] in *.
+    destruct (atts_live y x Hin) as [Hy Hx]. pose proof (av_range x Hx). pose proof (av_range y Hy).
+    rewrite att_index_pidx in E by lia. apply pidx_inj in E; lia.
+  - intros ([y x] & Hin & H). cbn [fst snd] in H. apply andb_true_iff in H. destruct H as [H1 H2].
+    apply Nat.eqb_eq in H1, H2. exists (y, x). split; [|exact Hin]. cbn [fst snd]. subst a b.
+    apply att_index_pidx. lia.
+Qed.
+
+Theorem att_asm_assumed m :
+  forallb (vtrue m) (att_asm idx_of_atts) = true <-> assumed n slot_att m.
+Proof.
+  rewrite att_asm_sem. split.
+  - intros H a b Ha Hb. rewrite att_v_pidx by lia. rewrite <- memb_idx_of_atts by assumption.
+    rewrite <- (H (pidx n a b) (pidx_lt n a b Ha Hb)). f_equal. lia.
+  - intros H i Hi.
+    assert (Hn : n <> 0) by (intros ->; lia).
+    set (a := dec_a n i). set (b := dec_b n i).
+    assert (Hb : 1 <= b <= n) by (unfold b, dec_b; pose proof (Nat.mod_upper_bound i n Hn); lia).
+    assert (Ha : 1 <= a <= n).
+    { unfold a, dec_a. split; [lia|]. assert (i / n < n) by (apply Nat.div_lt_upper_bound; [exact Hn|exact Hi]). lia. }
+    assert (Ei : i = pidx n a b).
+    { unfold pidx, a, b, dec_a, dec_b. cbn [Nat.sub]. rewrite !Nat.sub_0_r. apply Nat.div_mod. exact Hn. }
+    rewrite Ei at 2. rewrite memb_idx_of_atts by assumption. rewrite <- (H a b Ha Hb), att_v_pidx by lia.
+    f_equal. lia.
+Qed.
+
+End Template.
